@@ -17,8 +17,8 @@ import time
 from . import env
 
 KNOWN_FILE = os.path.join(env.VERIF, "known_findings.json")
-EVIDENCE_DIR = os.path.join(env.VERIF, "evidence")
-REPLAY_DIR = os.path.join(env.VERIF, "replays")
+EVIDENCE_DIR = os.environ.get("GBV_EVIDENCE_DIR") or os.path.join(env.VERIF, "evidence")
+REPLAY_DIR = os.environ.get("GBV_REPLAY_DIR") or os.path.join(env.VERIF, "replays")
 
 
 def load_check(pid):
